@@ -81,6 +81,10 @@ def main(argv):
             undecided.append((o, "no outcome"))
             continue
         if oc["status"] == "discharged":
+            try:
+                os.remove(os.path.join(VERIF, "replays", "%s-%s.json" % (prop, o.id)))  # stale replay of an earlier run
+            except OSError:
+                pass
             continue
         if oc["status"] == "undecided":
             undecided.append((o, oc.get("reason", "")))
